@@ -418,43 +418,48 @@ _PRE2A_SIG = ("C03/remote-stacked-source-into-stacked-pre-2a-target-parent-"
               "inventory-not-copied")
 
 
+def _family_sig(sfmt, tfmt, symptom):
+    """Signature of the 'remote stacked source -> stacked target' family by
+    (source storage class, target storage class, symptom). The names merged
+    earlier are kept where the class coincides."""
+    sc = "2a" if sfmt == "2a" else "pre-2a"
+    tc = "2a" if tfmt == "2a" else "pre-2a"
+    if tc == "pre-2a" and sc == "pre-2a":
+        return _PRE2A_SIG           # silent and loud symptoms, one finding
+    return "C03/remote-stacked-%s-source-into-stacked-%s-target-%s" % (
+        sc, tc, symptom)
+
+
 def _remote_stacked_source_failure(case, sfmt, tfmt, e):
-    """Names two failure classes that need all of: a source that is itself
+    """Names the failure classes that need all of: a source that is itself
     stacked, opened through the smart server, and a stacked target (the
     client then builds a self-contained stream through the VFS fallback of
-    RemoteStreamSource)."""
+    RemoteStreamSource). Only the listed exception shapes are classified;
+    anything else stays a generic violation."""
     if case.get("src_stacked") is None or case.get("stacked") is None or \
             case.get("remote") not in ("src", "both"):
         return None
     name = type(e).__name__
-    if name == "TypeError" and sfmt not in RICH and tfmt in RICH and \
-            "bytes-like object" in str(e):
-        return ("C03/rich-root-upgrade-from-remote-stacked-source-into-"
-                "stacked-target-typeerror")
-    if name == "ValueError" and sfmt not in RICH and tfmt in RICH and \
-            "not a bytes string" in str(e):
-        # same root cause as the TypeError above (Inter1and2Helper.
-        # _find_root_ids hands tuples of parent ids to the remote graph);
-        # which of the two is raised depends on the remote call taken
-        return ("C03/rich-root-upgrade-from-remote-stacked-source-into-"
-                "stacked-target-valueerror")
-    if tfmt != "2a" and sfmt != "2a" and (
-            (name == "ErrorFromSmartServer" and "BzrCheckError" in str(e)
-             and "Newly created pack file" in str(e)) or
-            (name == "AssertionError" and case.get("remote") == "both" and
-             "second push failed to complete a fetch" in str(e) and
-             "('inventories'," in str(e))):
-        return _PRE2A_SIG
-    if sfmt == tfmt == "2a":
-        msg = str(e)
-        if (name == "BzrCheckError" and (
-                "missing referenced chk root" in msg or
-                "missing text keys" in msg or "missing chk node" in msg)) or \
-                (name == "ErrorFromSmartServer" and "NoSuchRevision" in msg) or \
-                (name == "AssertionError" and
-                 "second push failed to complete a fetch" in msg):
-            return ("C03/remote-stacked-2a-source-into-stacked-2a-target-"
-                    "incomplete-stream")
+    msg = str(e)
+    if sfmt not in RICH and tfmt in RICH:
+        # Inter1and2Helper._find_root_ids hands tuples of parent ids to the
+        # remote graph; which error is raised depends on the remote call
+        if name == "TypeError" and "bytes-like object" in msg:
+            return ("C03/rich-root-upgrade-from-remote-stacked-source-into-"
+                    "stacked-target-typeerror")
+        if name == "ValueError" and "not a bytes string" in msg:
+            return ("C03/rich-root-upgrade-from-remote-stacked-source-into-"
+                    "stacked-target-valueerror")
+    incomplete = (
+        (name == "BzrCheckError" and (
+            "missing referenced chk root" in msg or "missing text keys" in msg
+            or "missing chk node" in msg or "Newly created pack file" in msg))
+        or (name == "ErrorFromSmartServer" and (
+            "NoSuchRevision" in msg or "BzrCheckError" in msg))
+        or (name == "AssertionError" and
+            "second push failed to complete a fetch" in msg))
+    if incomplete:
+        return _family_sig(sfmt, tfmt, "incomplete-stream")
     return None
 
 
@@ -537,10 +542,11 @@ def _run_transfers(case, env, d, tpath, spath, sfmt, tfmt, spec, g, want, pre,
                     tag=(tag + "-" if tag else "") + "stacked")
             except Expect as e:
                 if e.signature.endswith("parent-inventory-missing") and \
-                        _PRE2A_SIG and case.get("src_stacked") is not None \
-                        and case.get("remote") in ("src", "both") and \
-                        tfmt != "2a":
-                    raise Expect(_PRE2A_SIG, e.detail)
+                        case.get("src_stacked") is not None and \
+                        case.get("remote") in ("src", "both"):
+                    raise Expect(_family_sig(sfmt, tfmt,
+                                             "parent-inventory-not-copied"),
+                                 e.detail)
                 raise
     verify("")
 
